@@ -501,7 +501,7 @@ def fresh_set_case(ctx, prop, k, tmp, fmt):
     del writer
 
 
-def several_packages_roundtrip(ctx, k, tmp):
+def several_packages_roundtrip(ctx, k, tmp, fmt='xmi'):
     """a model over two or three packages (an extension package, two versions of a metamodel) that may share one namespace
     prefix and class names: objects of subclasses sit in containments typed by a class of the first package (so their
     type is written explicitly): every object comes back with its own class"""
@@ -509,8 +509,8 @@ def several_packages_roundtrip(ctx, k, tmp):
     from pyecore import ecore as E
     from pyecore.resources import ResourceSet, URI
     from pyecore.resources.xmi import XMIOptions
-    rng = common.sub_rng(ctx.seed, 'C08', 'packages', k)
-    npk = rng.choice([2, 2, 3])
+    rng = common.sub_rng(ctx.seed, 'C08', 'packages', k, fmt)
+    npk = rng.choice([2, 3, 3])
     same_prefix = rng.random() < .7
     same_names = rng.random() < .6
     pks, classes = [], []
@@ -521,14 +521,28 @@ def several_packages_roundtrip(ctx, k, tmp):
         pk.eClassifiers.append(c)
         pks.append(pk); classes.append(c)
     base = classes[0]
+    # every class has a feature `kind` of its own — one name, another type in each package (text, enumeration, number)
+    En = E.EEnum('Kind', literals=['PLAIN', 'FRAGILE'])
+    pks[-1].eClassifiers.append(En)
+    kinds = [(E.EString, ['s', 't']), (En, [En.getEEnumLiteral('FRAGILE')]), (E.EInt, [3, 4])]
+    kind_vals = {}
+    for i, c in enumerate(classes):
+        if i == 0:
+            continue        # (the base class has none: the subclasses' features do not shadow an inherited one)
+        t, vs = kinds[(i - 1) % len(kinds)]     # (text first: what is remembered for the first `Item.kind` met must not serve the others)
+        c.eStructuralFeatures.append(E.EAttribute('kind', t))
+        kind_vals[i] = vs
     base.eStructuralFeatures.append(E.EReference('kids', base, upper=-1, containment=True))
     base.eStructuralFeatures.append(E.EReference('friend', base))
     for c in classes[1:]:
         c.eSuperTypes.append(base)
     root = base(name='root')
     objs = [root]
-    for j in range(rng.randint(2, 6)):
-        o = rng.choice(classes)(name=f'n{j}')
+    for j in range(rng.randint(3, 7)):
+        ci = rng.randrange(len(classes))
+        o = classes[ci](name=f'n{j}')
+        if ci in kind_vals and rng.random() < .8:
+            o.kind = rng.choice(kind_vals[ci])
         rng.choice(objs).kids.append(o)
         objs.append(o)
     for o in objs:
@@ -536,22 +550,25 @@ def several_packages_roundtrip(ctx, k, tmp):
             o.friend = rng.choice(objs)
 
     def rs():
+        from pyecore.resources.json import JsonResource
         r = ResourceSet()
+        r.resource_factory['json'] = lambda uri: JsonResource(uri)
         for pk in pks:
             r.metamodel_registry[pk.nsURI] = pk
         return r
-    path = os.path.join(tmp, f'pkrt{k}.xmi')
+    path = os.path.join(tmp, f'pkrt{k}.{fmt}')
     res = rs().create_resource(URI(path))
     res.use_uuid = rng.random() < .3
     res.append(root)
-    opts = rng.choice([None, {XMIOptions.OPTION_USE_XMI_TYPE: True}, {XMIOptions.SERIALIZE_DEFAULT_VALUES: True}])
+    opts = rng.choice([None, {XMIOptions.OPTION_USE_XMI_TYPE: True}, {XMIOptions.SERIALIZE_DEFAULT_VALUES: True}]) if fmt == 'xmi' else None
     ctx.evaluations += 1
     ctx.count('packages/' + ('shared-prefix' if same_prefix else 'own-prefixes') + ('/same-names' if same_names else ''))
     ctx.nontriv(('packages', k))
 
     def walk(o):
         out = [(o.name, classes.index(o.eClass) if o.eClass in classes else f'foreign {o.eClass.name}',
-                o.friend.name if o.friend is not None else None)]
+                o.friend.name if o.friend is not None else None,
+                (lambda v: (type(v).__name__, str(v)))(getattr(o, 'kind', None)))]
         for c in o.kids:
             out += walk(c)
         return out
@@ -563,9 +580,9 @@ def several_packages_roundtrip(ctx, k, tmp):
     except Exception as e:
         after = f'raised {type(e).__name__}: {str(e)[:80]}'
     if after != before:
-        ctx.violate({'clause': 'not-isomorphic', 'packages': True},
-                    f'model over {npk} packages ({"one shared prefix" if same_prefix else "own prefixes"}, {"same class names" if same_names else "own class names"}) '
-                    f'[options {opts}]: (name, class, friend) in document order was {before}, reloaded {after}',
+        ctx.violate({'clause': 'not-isomorphic', 'packages': True, 'format': fmt},
+                    f'{fmt} model over {npk} packages ({"one shared prefix" if same_prefix else "own prefixes"}, {"same class names" if same_names else "own class names"}) '
+                    f'[options {opts}]: (name, class, friend, kind) in document order was {before}, reloaded {after}',
                     {'packages_case': k})
 
 
